@@ -1,7 +1,8 @@
 #!/venv/bin/python
-"""import_seeded.py <Cnn> <breaker out dir> <summary log>: copy confirmed seeded changes into /verif/seeded/<Cnn>-<k>/"""
+"""import_seeded.py <Cnn> <breaker out dir> <summary log> [offset]: copy confirmed seeded changes into /verif/seeded/<Cnn>-<k>/"""
 import json, os, re, shutil, sys
 pid, out, log = sys.argv[1], sys.argv[2], sys.argv[3]
+off = int(sys.argv[4]) if len(sys.argv) > 4 else 0     # second-round changes: number them after the first round
 lines = {}
 for l in open(log):
     m = re.match(r"(\S+)/(\d+): demo_base=(\d+) demo_patched=(\d+) tests=\[(.*?)\] check_rc=(\d+) violations=(\d+)", l)
@@ -9,7 +10,7 @@ for l in open(log):
         lines[int(m.group(2))] = m.groups()
 for k, g in sorted(lines.items()):
     src = os.path.join(out, str(k))
-    dst = "/verif/seeded/%s-%d" % (pid, k)
+    dst = "/verif/seeded/%s-%d" % (pid, k + off)
     os.makedirs(dst, exist_ok=True)
     for f in ("patch.diff", "demo.py"):
         shutil.copy(os.path.join(src, f), os.path.join(dst, f))
